@@ -894,6 +894,63 @@ Section EntriesAlwaysChecked.
 End EntriesAlwaysChecked.
 
 (* ------------------------------------------------------------------ *)
+(* an entry's addresses and metadata, replaced together                 *)
+
+Section EntryValues.
+  Variables pubkey sigt peerid : Type.
+  Variable verify : pubkey -> bytes -> sigt -> bool.
+  Variable peer_id : pubkey -> peerid.
+  Variable peerid_eqb : peerid -> peerid -> bool.
+  Variable Hf : bytes -> bytes.
+  Variable decode_pid : bytes -> option peerid.
+  Hypothesis eqb_spec : forall a b, peerid_eqb a b = true <-> a = b.
+  Hypothesis Hinj : H_injective Hf.
+
+  Local Notation V strict := (verify_gen verify peer_id peerid_eqb (ideal_H Hf) decode_pid strict).
+
+  Definition upd_pvalues (p : provider pubkey sigt) (addrs : list bytes) (md : bytes) : provider pubkey sigt :=
+    Provider (p_id p) addrs md (p_sig p).
+
+  (* Whatever the entry (the main provider's or not), whatever the new address list and
+     metadata -- empty, the advertisement's own, anything: unless the signed bytes
+     concat addrs ++ md are the same, the advertisement is rejected. *)
+  Lemma entry_values_change_rejected st st' (a : ad pubkey sigt) s x l1 p l2 addrs' md' :
+    V st a = Ok s -> a_ext a = Some x -> x_providers x = l1 ++ p :: l2 ->
+    concat addrs' ++ md' <> concat (p_addrs p) ++ p_md p ->
+    is_ok (V st' (upd_providers pubkey sigt a x (l1 ++ upd_pvalues p addrs' md' :: l2))) = false.
+  Proof.
+    intros Va X Ps N.
+    destruct (accepted_has_entries _ _ _ verify peer_id peerid_eqb Hf decode_pid eqb_spec _ _ _ Va) as [ent En].
+    destruct (V st' (upd_providers pubkey sigt a x (l1 ++ upd_pvalues p addrs' md' :: l2))) as [s'| |] eqn:Vb;
+      [exfalso|reflexivity|reflexivity].
+    assert (I1 : In p (x_providers x)) by (rewrite Ps; apply in_elt).
+    pose proof (accepted_ep _ _ _ verify peer_id peerid_eqb Hf decode_pid eqb_spec _ _ _ _ _ Va X I1) as A1.
+    assert (I2 : In (upd_pvalues p addrs' md') (x_providers (Ext (l1 ++ upd_pvalues p addrs' md' :: l2) (x_override x)))) by apply in_elt.
+    pose proof (accepted_ep _ _ _ verify peer_id peerid_eqb Hf decode_pid eqb_spec _ _ _ _ _ Vb eq_refl I2) as A2.
+    pose proof (ep_same_sig_same_raw _ _ _ verify peer_id Hf decode_pid Hinj _ _ _ _ _ _ _ _ _ _ ent ent A1 A2 eq_refl En En) as R.
+    unfold ep_raw in R; cbn in R. do 5 apply app_inv_head in R.
+    rewrite !app_assoc in R. apply app_inv_tail in R. congruence.
+  Qed.
+
+  (* the two special cases a "may be omitted" shortcut would confuse: a value cleared, and a
+     value replaced by the advertisement's own *)
+  Lemma entry_values_cleared_or_copied_rejected st st' (a : ad pubkey sigt) s x l1 p l2 :
+    V st a = Ok s -> a_ext a = Some x -> x_providers x = l1 ++ p :: l2 ->
+    (p_md p <> [] -> is_ok (V st' (upd_providers pubkey sigt a x (l1 ++ upd_pvalues p (p_addrs p) [] :: l2))) = false) /\
+    (concat (p_addrs p) <> [] -> is_ok (V st' (upd_providers pubkey sigt a x (l1 ++ upd_pvalues p [] (p_md p) :: l2))) = false) /\
+    (a_md a <> p_md p -> is_ok (V st' (upd_providers pubkey sigt a x (l1 ++ upd_pvalues p (p_addrs p) (a_md a) :: l2))) = false) /\
+    (concat (a_addrs a) <> concat (p_addrs p) ->
+       is_ok (V st' (upd_providers pubkey sigt a x (l1 ++ upd_pvalues p (a_addrs a) (p_md p) :: l2))) = false).
+  Proof.
+    intros Va X Ps. repeat split; intro N; eapply entry_values_change_rejected; eauto.
+    - intro E. apply app_inv_head in E. congruence.
+    - intro E. cbn in E. apply N. rewrite <- (app_nil_l (p_md p)) in E at 1. apply app_inv_tail in E. congruence.
+    - intro E. apply app_inv_head in E. congruence.
+    - intro E. apply app_inv_tail in E. congruence.
+  Qed.
+End EntryValues.
+
+(* ------------------------------------------------------------------ *)
 (* the signature covers the identity STRINGS: another spelling of the same peer ID
    (peer.Decode gives the same peer) is a changed signed value like any other *)
 
@@ -999,6 +1056,26 @@ Module Witness.
     (a <- sign_plain Sym.pub Sym.sign (ideal_H toyH) plain0 0 ;; SV true ids0 (shifted a)) = Ok 0 /\
     a_provider (shifted plain0) <> a_provider plain0.
   Proof. repeat split; try (vm_compute; reflexivity). vm_compute. discriminate. Qed.
+
+  (* the same boundary inside an entry: the last byte of the entry's only address moved to
+     the front of its metadata (or an address split in two) leaves the signed bytes unchanged *)
+  Definition ep_shifted (a : sad) : sad :=
+    match a_ext a with
+    | Some x => match x_providers x with
+                | p0 :: p1 :: r =>
+                  set_ext a (Some (Ext (p0 :: Provider (p_id p1) [[47]] (98 :: p_md p1) (p_sig p1) :: r) (x_override x)))
+                | _ => a
+                end
+    | None => a
+    end.
+  Example entry_adjacent_shift :
+    (a <- Ssign ad0 0 fetch_right ;; SV true ids0 (ep_shifted a)) = Ok 0 /\
+    (a <- Ssign ad0 0 fetch_right ;; Ok (bytes_eqb (a_md (ep_shifted a)) (a_md a))) = Ok true /\
+    (a <- Ssign ad0 0 fetch_right ;;
+     Ok (match a_ext (ep_shifted a), a_ext a with
+         | Some x, Some y => list_eqb bytes_eqb (map (fun p : sprov => p_md p) (x_providers x)) (map (fun p : sprov => p_md p) (x_providers y))
+         | _, _ => true end)) = Ok false.
+  Proof. repeat split; vm_compute; reflexivity. Qed.
 
   (* observation: ConsumeTypedEnvelope does not look at the payload type, so an extended
      provider's authorisation (key 1 over prev, entries, provider, ctx, its ID, addresses,
